@@ -267,6 +267,7 @@ class Engine:
         if c is True:
             return
         if c is False:
+            self.excluded.append(z3.And(*self.pc) if self.pc else z3.BoolVal(True))
             raise Infeasible()
         self.excluded.append(z3.And(*(self.pc + [z3.Not(c)])))
         self._add(c)
